@@ -2,6 +2,4 @@ module github.com/nuts-foundation/nuts-node/vcr/pe/gen/schema
 
 go 1.21
 
-require (
-	github.com/a-h/generate v0.0.0-20220105161013-96c14dfdfb60 // indirect
-)
+require github.com/a-h/generate v0.0.0-20220105161013-96c14dfdfb60
